@@ -42,3 +42,15 @@ let hex_of_bytes (l : n list) : string =
 
 (* run_line is defined by the per-property driver (ocaml/drv_cXX.ml), which is concatenated
    after this file; main is appended from drvmain.ml *)
+
+let verif_full = (try ignore (Sys.getenv "VERIF_FULL"); true with Not_found -> false)
+
+(* long byte strings are summarised exactly as harness/hmain.c putsum does *)
+let sum_of_bytes (l : n list) : string =
+  let len = Stdlib.List.length l in
+  if verif_full || len <= 48 then hex_of_bytes l
+  else begin
+    let h = ref 2166136261 in
+    Stdlib.List.iter (fun x -> h := ((!h lxor (int_of_n x)) * 16777619) land 0xffffffff) l;
+    Printf.sprintf "L%d:%08x:%s" len !h (hex_of_bytes (Stdlib.List.filteri (fun i _ -> i < 8) l))
+  end
